@@ -389,7 +389,8 @@ fn ack_name(r: &Result<(), WalError>) -> &'static str {
         Err(WalError::Io(_)) => "io",
         Err(WalError::DiskFull) => "full",
         Err(WalError::PartialWrite { .. }) => "torn",
-        Err(WalError::FsyncFailed(m)) if m == "WAL write timed out" => "timeout", // the caller's 5 s deadline
+        // (the caller's 5 s deadline is reported as FsyncFailed too — "WAL write timed out"; the class is what is
+        // compared, not the wording, so that a reworded message is not an alarm)
         Err(WalError::FsyncFailed(_)) => "fsync",
         Err(_) => "other",
     }
@@ -725,10 +726,13 @@ fn run_workload(wl: &Workload, out: &mut Out, source: &str) {
         out.count("burst:one-caller-no-yield(mailbox capacity crossed)");
     }
     out.count(&format!("group_commit_max_wait_us:{}", wl.max_wait_us));
-    for (_, a, _) in &acks {
-        if *a == "timeout" {
-            out.count("caller:ack-timeout(5s)");
-            TIMEOUTS_SEEN.fetch_add(1, std::sync::atomic::Ordering::Relaxed);
+    // a fault-free workload whose group-commit wait exceeds 5 s: every fsync-class error is the caller's deadline
+    if wl.timeout_mode() && wl.max_wait_us > 5_000_000 && wl.incs.iter().all(|i| i.faults.is_empty() && i.dead.is_none()) {
+        for (_, a, _) in &acks {
+            if *a == "fsync" {
+                out.count("caller:ack-timeout(5s)");
+                TIMEOUTS_SEEN.fetch_add(1, std::sync::atomic::Ordering::Relaxed);
+            }
         }
     }
     if wl.timeout_mode() {
